@@ -453,7 +453,7 @@ func (b *raftBackend) buildValueAtVersion(key []byte, valueResp, ttlResp *pb.Get
 		return &redisValue{Found: false}, nil
 	}
 	return &redisValue{
-		Value:     append([]byte(nil), valueResp.GetValue()...),
+		Value:     append([]byte{}, valueResp.GetValue()...),
 		ExpiresAt: expiresAt,
 		Found:     true,
 	}, nil
